@@ -266,6 +266,18 @@ def pair4(P, R, L):
             for tt in t.ok:
                 if b.path == TASK:
                     vals = return_value_consts(b, tt)
+                    if "nonconst" in vals:
+                        # `return needs_follow_up` where the value IS the tested result: true on this edge
+                        same = True
+                        for x in b.reachable(tt):
+                            for st in b.blocks[x]["stmts"]:
+                                if st["k"] == "assign" and st["pl"]["l"] == 0 and not st["pl"]["p"] and not (
+                                        st["rv"]["k"] == "use" and st["rv"]["ops"][0]["k"] == "const"):
+                                    os_ = origins(b, st["rv"]["ops"][0]) if st["rv"].get("ops") else []
+                                    if not (os_ and all(o.kind == "call" and o.site is not None and o.site.bb == cs.bb for o in os_)):
+                                        same = False
+                        if same:
+                            vals = (vals - {"nonconst"}) | {"1"}
                     if vals != {"1"}:
                         ok = False
                         why.append("true edge may return %s" % sorted(vals))
